@@ -51,6 +51,17 @@ var dialect = "micro"
 var prefix = "g_"
 
 func goType(e ast.Expr) string {
+	if dialect == "mini" {
+		switch src(e) {
+		case "micro.Goal":
+			return "goal"
+		case "...micro.Goal", "[]micro.Goal":
+			return "goals"
+		case "...[]micro.Goal", "[][]micro.Goal":
+			return "goalss"
+		}
+		fail("type outside the subset: %s", src(e))
+	}
 	if dialect == "stream" {
 		switch src(e) {
 		case "int":
@@ -61,6 +72,8 @@ func goType(e ast.Expr) string {
 			return "states"
 		case "*State":
 			return "mstate?"
+		case "Goal":
+			return "sgoal"
 		}
 		fail("type outside the subset: %s", src(e))
 	}
@@ -119,6 +132,12 @@ func coqType(t string) string {
 		return "(option gsub)"
 	case "kind":
 		return "kind"
+	case "goal":
+		return "goal"
+	case "goals":
+		return "(list goal)"
+	case "goalss":
+		return "(list (list goal))"
 	case "Z":
 		return "Z"
 	case "stream":
@@ -127,6 +146,10 @@ func coqType(t string) string {
 		return "(list state)"
 	case "mstate?":
 		return "(option state)"
+	case "sgoal":
+		return "sgoal"
+	case "mstate":
+		return "state"
 	}
 	if strings.HasPrefix(t, "(") { // tuple "(a,b)"
 		parts := strings.Split(t[1:len(t)-1], ",")
@@ -141,6 +164,8 @@ func coqType(t string) string {
 
 type fn struct {
 	name    string
+	body    *ast.BlockStmt // the statements translated (the body of the returned function literal for a curried goal constructor)
+	sig     string         // the Go signature, for the comment
 	decl    *ast.FuncDecl
 	params  [][2]string // name, type
 	results []string
@@ -150,7 +175,7 @@ type fn struct {
 }
 
 var fns = map[string]*fn{}
-var order = []string{"assv", "walk", "walkStar", "occurs", "exts", "unify", "reifys", "reifyS"}
+var order = []string{"assv", "walk", "walkStar", "occurs", "exts", "unify", "reifys", "reifyS", "EqualO"}
 
 func (f *fn) resType() string {
 	if len(f.results) == 1 {
@@ -282,6 +307,19 @@ func (c *ctx) expr(e ast.Expr, want string) ex {
 			x := c.expr(e.X, "bool")
 			return c.seq([]ex{x}, func(n []string) ex { return ex{"negb " + n[0], true, "bool"} })
 		}
+		if e.Op == token.AND { // &State{Substitutions: a, Counter: b}
+			if cl, ok := e.X.(*ast.CompositeLit); ok && src(cl.Type) == "State" && len(cl.Elts) == 2 && dialect == "micro" {
+				kv0, ok0 := cl.Elts[0].(*ast.KeyValueExpr)
+				kv1, ok1 := cl.Elts[1].(*ast.KeyValueExpr)
+				if ok0 && ok1 && src(kv0.Key) == "Substitutions" && src(kv1.Key) == "Counter" {
+					a := c.expr(kv0.Value, "subst")
+					b := c.expr(kv1.Value, "N")
+					if a.ty == "subst" && b.ty == "N" {
+						return c.seq([]ex{a, b}, func(n []string) ex { return ex{"mkSt " + n[0] + " " + n[1], true, "mstate"} })
+					}
+				}
+			}
+		}
 		if e.Op == token.AND { // &ast.SExpr{Atom: &ast.Atom{Var: v}}
 			if cl, ok := e.X.(*ast.CompositeLit); ok && src(cl.Type) == "ast.SExpr" && len(cl.Elts) == 1 {
 				if kv, ok := cl.Elts[0].(*ast.KeyValueExpr); ok && src(kv.Key) == "Atom" {
@@ -398,7 +436,32 @@ func (c *ctx) expr(e ast.Expr, want string) ex {
 			}
 			return c.seq([]ex{a, b}, func(n []string) ex { return ex{"(" + n[0] + " + " + n[1] + ")%nat", true, "nat"} })
 		}
+	case *ast.IndexExpr:
+		if dialect == "mini" {
+			x := c.expr(e.X, "goals")
+			i := c.expr(e.Index, "nat")
+			if x.ty == "goals" && i.ty == "nat" && x.pure && i.pure {
+				return ex{"nth_goal (" + x.code + ") (" + i.code + ")", false, "goal"}
+			}
+		}
+	case *ast.SliceExpr:
+		if dialect == "mini" && e.Low != nil && e.High == nil && !e.Slice3 {
+			x := c.expr(e.X, "goals")
+			i := c.expr(e.Low, "nat")
+			if x.ty == "goals" && i.ty == "nat" && x.pure && i.pure {
+				return ex{"from_goals (" + x.code + ") (" + i.code + ")", false, "goals"}
+			}
+		}
+	case *ast.FuncLit:
+		if dialect == "mini" {
+			return c.goalClosure(e)
+		}
 	case *ast.SelectorExpr:
+		if id, ok := e.X.(*ast.Ident); ok && id.Name == "micro" && dialect == "mini" {
+			if k, ok := map[string]string{"FailureO": "GFail", "SuccessO": "GSucc"}[e.Sel.Name]; ok {
+				return ex{k, true, "goal"}
+			}
+		}
 		if id, ok := e.X.(*ast.Ident); ok && id.Name == "reflect" && dialect == "gomini" {
 			if k, ok := map[string]string{"Ptr": "KPtr", "Slice": "KSlice", "Struct": "KStruct", "Map": "KMap", "Interface": "KInterface"}[e.Sel.Name]; ok {
 				return ex{k, true, "kind"}
@@ -427,7 +490,14 @@ func (c *ctx) expr(e ast.Expr, want string) ex {
 			}
 		}
 		x := c.expr(e.X, "")
+		if dialect == "stream" && x.ty == "stream" && e.Sel.Name == "state" && x.pure {
+			return ex{"cell_state (" + x.code + ")", false, "mstate?"}
+		}
 		switch x.ty + "." + e.Sel.Name {
+		case "mstate.Substitutions":
+			return c.seq([]ex{x}, func(n []string) ex { return ex{"sub " + n[0], true, "subst"} })
+		case "mstate.Counter":
+			return c.seq([]ex{x}, func(n []string) ex { return ex{"ctr " + n[0], true, "N"} })
 		case "var.Index":
 			return ex{x.code, x.pure, "N"}
 		case "subpair.Key":
@@ -575,7 +645,173 @@ func (c *ctx) gominiCall(e *ast.CallExpr) (ex, bool) {
 	return ex{}, false
 }
 
+// A goal written as a function literal.  Two shapes are understood, the bodies of micro.Disj and micro.Conj:
+//
+//	func(s *micro.State) *micro.StreamOfStates { a := G1(s); b := G2(s); return micro.Mplus(a, b) }   = GDisj G1 G2
+//	func(s *micro.State) *micro.StreamOfStates { a := G1(s); return micro.Bind(a, G2) }               = GConj G1 G2
+//
+// with G1, G2 goal-typed variables of the enclosing function.  Anything else is outside the subset.
+func (c *ctx) goalClosure(fl *ast.FuncLit) ex {
+	bad := func() ex {
+		fail("%s: goal closure outside the subset: %s", c.f.name, src(fl))
+		return ex{}
+	}
+	if src(fl.Type) != "func(s *micro.State) *micro.StreamOfStates" {
+		return bad()
+	}
+	// name := G(s)
+	app := func(st ast.Stmt) (string, string, bool) {
+		as, ok := st.(*ast.AssignStmt)
+		if !ok || as.Tok != token.DEFINE || len(as.Lhs) != 1 || len(as.Rhs) != 1 {
+			return "", "", false
+		}
+		call, ok := as.Rhs[0].(*ast.CallExpr)
+		if !ok || len(call.Args) != 1 || src(call.Args[0]) != "s" {
+			return "", "", false
+		}
+		g, ok := call.Fun.(*ast.Ident)
+		if !ok || c.vars[g.Name] != "goal" {
+			return "", "", false
+		}
+		return src(as.Lhs[0]), g.Name, true
+	}
+	body := fl.Body.List
+	switch len(body) {
+	case 3:
+		a, g1, ok1 := app(body[0])
+		b, g2, ok2 := app(body[1])
+		if ok1 && ok2 && a != b && src(body[2]) == "return micro.Mplus("+a+", "+b+")" {
+			return ex{"GDisj " + c.name(g1) + " " + c.name(g2), true, "goal"}
+		}
+	case 2:
+		a, g1, ok1 := app(body[0])
+		if ret, ok := body[1].(*ast.ReturnStmt); ok1 && ok && len(ret.Results) == 1 {
+			if call, ok := ret.Results[0].(*ast.CallExpr); ok && src(call.Fun) == "micro.Bind" && len(call.Args) == 2 && src(call.Args[0]) == a {
+				if g2, ok := call.Args[1].(*ast.Ident); ok && c.vars[g2.Name] == "goal" {
+					return ex{"GConj " + c.name(g1) + " " + c.name(g2.Name), true, "goal"}
+				}
+			}
+		}
+	}
+	return bad()
+}
+
+func (c *ctx) miniCall(e *ast.CallExpr) (ex, bool) {
+	if src(e.Fun) == "micro.Zzz" && len(e.Args) == 1 {
+		x := c.expr(e.Args[0], "goal")
+		if x.ty == "goal" {
+			return c.seq([]ex{x}, func(n []string) ex { return ex{"GZzz " + n[0], true, "goal"} }), true
+		}
+	}
+	if id, ok := e.Fun.(*ast.Ident); ok && id.Name == "append" && len(e.Args) == 2 && !e.Ellipsis.IsValid() {
+		x := c.expr(e.Args[0], "goals")
+		y := c.expr(e.Args[1], "goal")
+		if x.ty == "goals" && y.ty == "goal" {
+			return c.seq([]ex{x, y}, func(n []string) ex { return ex{"(" + n[0] + " ++ [" + n[1] + "])", true, "goals"} }), true
+		}
+	}
+	if id, ok := e.Fun.(*ast.Ident); ok && fns[id.Name] != nil && !e.Ellipsis.IsValid() {
+		fail("%s: a variadic function called without ...: %s", c.f.name, src(e))
+	}
+	return ex{}, false
+}
+
+// closures of the stream dialect.
+//
+//	Suspension(func() *StreamOfStates { _, cdr := X.CarCdr(); return Mplus(Y, cdr) })   = susp_mplus Y X
+//	Suspension(func() *StreamOfStates { _, cdr := X.CarCdr(); return Bind(cdr, G) })    = susp_bind G X
+//	NewStream(A, func() *StreamOfStates { return F(args) })                              = the cell (A . F(args)), tail computed
+//
+// (the model is defunctionalised: a suspension is a thunk TMplus / TBind over the thunk of the immature cell X; the lazily
+// computed tail of a mature cell is modelled as the computed tail)
+func (c *ctx) streamClosureCall(e *ast.CallExpr) (ex, bool) {
+	id, ok := e.Fun.(*ast.Ident)
+	if !ok {
+		return ex{}, false
+	}
+	isThunkType := func(fl *ast.FuncLit) bool { return src(fl.Type) == "func() *StreamOfStates" }
+	switch id.Name {
+	case "Suspension":
+		if len(e.Args) != 1 {
+			break
+		}
+		fl, ok := e.Args[0].(*ast.FuncLit)
+		if !ok || !isThunkType(fl) || len(fl.Body.List) != 2 {
+			fail("%s: suspension outside the subset: %s", c.f.name, src(e))
+		}
+		as, ok := fl.Body.List[0].(*ast.AssignStmt)
+		if !ok || as.Tok != token.DEFINE || len(as.Lhs) != 2 || src(as.Lhs[0]) != "_" || len(as.Rhs) != 1 {
+			fail("%s: suspension outside the subset: %s", c.f.name, src(e))
+		}
+		cdr := src(as.Lhs[1])
+		call, ok := as.Rhs[0].(*ast.CallExpr)
+		if !ok || len(call.Args) != 0 {
+			fail("%s: suspension outside the subset: %s", c.f.name, src(e))
+		}
+		sel, ok := call.Fun.(*ast.SelectorExpr)
+		if !ok || sel.Sel.Name != "CarCdr" {
+			fail("%s: suspension outside the subset: %s", c.f.name, src(e))
+		}
+		x := c.expr(sel.X, "stream")
+		ret, ok := fl.Body.List[1].(*ast.ReturnStmt)
+		if !ok || len(ret.Results) != 1 || x.ty != "stream" || !x.pure {
+			fail("%s: suspension outside the subset: %s", c.f.name, src(e))
+		}
+		rc, ok := ret.Results[0].(*ast.CallExpr)
+		if !ok || len(rc.Args) != 2 {
+			fail("%s: suspension outside the subset: %s", c.f.name, src(e))
+		}
+		switch src(rc.Fun) {
+		case "Mplus":
+			if src(rc.Args[1]) == cdr {
+				y := c.expr(rc.Args[0], "stream")
+				if y.ty == "stream" && y.pure {
+					return ex{fmt.Sprintf("susp_mplus (%s) (%s)", y.code, x.code), false, "stream"}, true
+				}
+			}
+		case "Bind":
+			if src(rc.Args[0]) == cdr {
+				g := c.expr(rc.Args[1], "sgoal")
+				if g.ty == "sgoal" && g.pure {
+					return ex{fmt.Sprintf("susp_bind (%s) (%s)", g.code, x.code), false, "stream"}, true
+				}
+			}
+		}
+		fail("%s: suspension outside the subset: %s", c.f.name, src(e))
+	case "NewStream":
+		if len(e.Args) != 2 {
+			break
+		}
+		fl, ok := e.Args[1].(*ast.FuncLit)
+		if !ok || !isThunkType(fl) || len(fl.Body.List) != 1 {
+			fail("%s: NewStream outside the subset: %s", c.f.name, src(e))
+		}
+		rs, ok := fl.Body.List[0].(*ast.ReturnStmt)
+		if !ok || len(rs.Results) != 1 {
+			fail("%s: NewStream outside the subset: %s", c.f.name, src(e))
+		}
+		a := c.expr(e.Args[0], "mstate?")
+		t := c.expr(rs.Results[0], "stream")
+		if a.ty != "mstate?" || t.ty != "stream" || !a.pure {
+			fail("%s: NewStream outside the subset: %s", c.f.name, src(e))
+		}
+		tn := c.tmp()
+		return ex{fmt.Sprintf("bind (%s) (fun %s => new_stream (%s) %s)", ret(t), tn, a.code, tn), false, "stream"}, true
+	}
+	// g(car)
+	if t, ok := c.vars[id.Name]; ok && t == "sgoal" && len(e.Args) == 1 {
+		a := c.expr(e.Args[0], "mstate?")
+		if a.ty == "mstate?" && a.pure {
+			return ex{fmt.Sprintf("app_goal %s (%s)", c.name(id.Name), a.code), false, "stream"}, true
+		}
+	}
+	return ex{}, false
+}
+
 func (c *ctx) streamCall(e *ast.CallExpr) (ex, bool) {
+	if r, ok := c.streamClosureCall(e); ok {
+		return r, true
+	}
 	// s.CarCdr()
 	if sel, ok := e.Fun.(*ast.SelectorExpr); ok && sel.Sel.Name == "CarCdr" && len(e.Args) == 0 {
 		x := c.expr(sel.X, "stream")
@@ -597,6 +833,11 @@ func (c *ctx) streamCall(e *ast.CallExpr) (ex, bool) {
 }
 
 func (c *ctx) call(e *ast.CallExpr) ex {
+	if dialect == "mini" {
+		if r, ok := c.miniCall(e); ok {
+			return r
+		}
+	}
 	if dialect == "stream" {
 		if r, ok := c.streamCall(e); ok {
 			return r
@@ -664,15 +905,28 @@ func (c *ctx) call(e *ast.CallExpr) ex {
 	case "len":
 		if len(e.Args) == 1 {
 			x := c.expr(e.Args[0], "subst")
-			if x.ty == "subst" {
+			if x.ty == "subst" || x.ty == "goals" || x.ty == "goalss" {
 				return c.seq([]ex{x}, func(n []string) ex { return ex{"length " + n[0], true, "nat"} })
 			}
 		}
 	case "make":
+		if len(e.Args) == 2 && src(e.Args[0]) == "[]micro.Goal" && dialect == "mini" {
+			n := c.expr(e.Args[1], "nat")
+			if n.ty == "nat" {
+				return c.seq([]ex{n}, func(ns []string) ex { return ex{"make_goals " + ns[0], true, "goals"} })
+			}
+		}
 		if len(e.Args) == 2 && src(e.Args[0]) == "Substitutions" {
 			n := c.expr(e.Args[1], "nat")
 			if n.ty == "nat" {
 				return c.seq([]ex{n}, func(ns []string) ex { return ex{"make_subst " + ns[0], true, "subst"} })
+			}
+		}
+	case "NewSingletonStream":
+		if len(e.Args) == 1 && dialect == "micro" {
+			x := c.expr(e.Args[0], "mstate")
+			if x.ty == "mstate" {
+				return c.seq([]ex{x}, func(n []string) ex { return ex{"SCons " + n[0] + " SNil", true, "stream"} })
 			}
 		}
 	case "reifyName":
@@ -834,12 +1088,14 @@ func (c *ctx) stmts(ss []ast.Stmt, k string) string {
 		// m[i] = v
 		if ix, ok := s.Lhs[0].(*ast.IndexExpr); ok && len(s.Lhs) == 1 && s.Tok == token.ASSIGN {
 			m, ok := ix.X.(*ast.Ident)
-			if !ok || c.vars[m.Name] != "subst" {
+			if !ok || (c.vars[m.Name] != "subst" && c.vars[m.Name] != "goals") {
 				fail("%s: indexed assignment: %s", c.f.name, src(s))
 			}
+			elt := map[string]string{"subst": "subpair", "goals": "goal"}[c.vars[m.Name]]
+			setter := map[string]string{"subst": "slice_set", "goals": "set_goal"}[c.vars[m.Name]]
 			i := c.expr(ix.Index, "nat")
-			v := c.expr(s.Rhs[0], "subpair")
-			if i.ty != "nat" || v.ty != "subpair" {
+			v := c.expr(s.Rhs[0], elt)
+			if i.ty != "nat" || v.ty != elt {
 				fail("%s: indexed assignment of %s at %s", c.f.name, v.ty, i.ty)
 			}
 			// slice_set is a primitive that can panic
@@ -853,13 +1109,13 @@ func (c *ctx) stmts(ss []ast.Stmt, k string) string {
 					names = append(names, c.tmp())
 				}
 			}
-			code = fmt.Sprintf("slice_set %s %s %s", varName(m.Name), names[0], names[1])
+			code = fmt.Sprintf("%s %s %s %s", setter, c.name(m.Name), names[0], names[1])
 			for j := len(binds) - 1; j >= 0; j-- {
 				if !binds[j].pure {
 					code = fmt.Sprintf("bind (%s) (fun %s => %s)", binds[j].code, names[j], code)
 				}
 			}
-			return c.bindTo(ex{code, false, "subst"}, varName(m.Name), c.stmts(rest, k))
+			return c.bindTo(ex{code, false, c.vars[m.Name]}, c.name(m.Name), c.stmts(rest, k))
 		}
 		e := c.expr(s.Rhs[0], func() string {
 			if id, ok := s.Lhs[0].(*ast.Ident); ok && len(s.Lhs) == 1 {
@@ -1033,31 +1289,93 @@ func (c *ctx) stmts(ss []ast.Stmt, k string) string {
 		}
 		return code
 	case *ast.RangeStmt:
-		// for _, x := range l { body }   with early returns only
-		if s.Key == nil || src(s.Key) != "_" || s.Value == nil || s.Tok != token.DEFINE {
+		if s.Key == nil || s.Value == nil || s.Tok != token.DEFINE {
 			fail("%s: range form: %s", c.f.name, src(s))
 		}
-		l := c.expr(s.X, "subst")
-		if l.ty != "subst" || !l.pure {
+		l := c.expr(s.X, "")
+		elt, ok := map[string]string{"subst": "subpair", "goals": "goal", "goalss": "goals"}[l.ty]
+		if !ok || !l.pure {
 			fail("%s: range over %s", c.f.name, l.ty)
 		}
 		x := s.Value.(*ast.Ident).Name
-		after := c.stmts(rest, k)
-		lc := c.clone()
-		lc.vars[x] = "subpair"
-		for _, b := range s.Body.List { // the body must not assign outer variables
+		// which outer variables does the body assign (x = e, m[i] = e)?
+		set := map[string]bool{}
+		hasReturn := false
+		for _, b := range s.Body.List {
 			ast.Inspect(b, func(n ast.Node) bool {
-				if as, ok := n.(*ast.AssignStmt); ok && as.Tok == token.ASSIGN {
-					fail("%s: assignment inside a range loop: %s", c.f.name, src(as))
+				switch n := n.(type) {
+				case *ast.ReturnStmt:
+					hasReturn = true
+				case *ast.AssignStmt:
+					if n.Tok == token.ASSIGN {
+						for _, lhs := range n.Lhs {
+							switch t := lhs.(type) {
+							case *ast.Ident:
+								set[t.Name] = true
+							case *ast.IndexExpr:
+								if id, ok := t.X.(*ast.Ident); ok {
+									set[id.Name] = true
+								} else {
+									fail("%s: assignment target: %s", c.f.name, src(lhs))
+								}
+							default:
+								fail("%s: assignment target: %s", c.f.name, src(lhs))
+							}
+						}
+					}
 				}
 				return true
 			})
 		}
 		loop := c.tmp()
 		tl := c.tmp()
-		body := lc.stmts(s.Body.List, loop+" "+tl)
-		return fmt.Sprintf("(fix %s (l_ : subst) : R %s :=\nmatch l_ with\n| [] =>\n%s\n| %s :: %s =>\n%s\nend) (%s)",
-			loop, coqType(c.f.resType()), after, varName(x), tl, body, l.code)
+		if len(set) == 0 {
+			// for _, x := range l { body }   with early returns only: a local fixpoint whose nil case is the rest of the function
+			if src(s.Key) != "_" {
+				fail("%s: range form: %s", c.f.name, src(s))
+			}
+			after := c.stmts(rest, k)
+			lc := c.clone()
+			lc.vars[x] = elt
+			body := lc.stmts(s.Body.List, loop+" "+tl)
+			return fmt.Sprintf("(fix %s (l_ : %s) : R %s :=\nmatch l_ with\n| [] =>\n%s\n| %s :: %s =>\n%s\nend) (%s)",
+				loop, coqType(l.ty), coqType(c.f.resType()), after, varName(x), tl, body, l.code)
+		}
+		// for i, x := range l { body }   where the body assigns outer variables and does not return: a fold carrying the
+		// index and the assigned variables
+		if hasReturn {
+			fail("%s: a range loop that both assigns and returns: %s", c.f.name, src(s))
+		}
+		var vs []string
+		for v := range set {
+			if _, ok := c.vars[v]; !ok {
+				fail("%s: assignment to an undeclared variable %s", c.f.name, v)
+			}
+			vs = append(vs, v)
+		}
+		sort.Strings(vs)
+		idx := c.tmp()
+		lc := c.clone()
+		lc.vars[x] = elt
+		if src(s.Key) != "_" {
+			lc.vars[src(s.Key)] = "nat"
+			lc.ren[src(s.Key)] = idx
+		}
+		var params, args []string
+		tys := make([]string, len(vs))
+		for i, v := range vs {
+			params = append(params, fmt.Sprintf("(%s : %s)", c.name(v), coqType(c.vars[v])))
+			args = append(args, c.name(v))
+			tys[i] = coqType(c.vars[v])
+		}
+		rty := tys[0]
+		if len(tys) > 1 {
+			rty = "(" + strings.Join(tys, " * ") + ")"
+		}
+		body := lc.stmts(s.Body.List, fmt.Sprintf("%s (S %s) %s %s", loop, idx, tl, strings.Join(args, " ")))
+		fold := fmt.Sprintf("(fix %s (%s : nat) (l_ : %s) %s : R %s :=\nmatch l_ with\n| [] => Ret %s\n| %s :: %s =>\n%s\nend) 0%%nat (%s) %s",
+			loop, idx, coqType(l.ty), strings.Join(params, " "), rty, c.tuple(vs), varName(x), tl, body, l.code, strings.Join(args, " "))
+		return fmt.Sprintf("bind (%s) (fun %s =>\n%s)", fold, c.pat(vs), c.stmts(rest, k))
 	}
 	fail("%s: statement outside the subset: %s", c.f.name, src(s))
 	return ""
@@ -1069,21 +1387,29 @@ func main() {
 		order = []string{"walk", "hasCycle", "isLeaf", "unify", "rewrite"}
 		os.Args = append(os.Args[:1], os.Args[2:]...)
 	}
+	if len(os.Args) == 4 && os.Args[1] == "-mini" {
+		dialect, prefix = "mini", "gn_"
+		order = []string{"DisjPlus", "DisjPlusNoZzz", "ConjPlus", "ConjPlusNoZzz", "Conde"}
+		os.Args = append(os.Args[:1], os.Args[2:]...)
+	}
 	if len(os.Args) == 4 && os.Args[1] == "-stream" {
 		dialect, prefix = "stream", "gs_"
-		order = []string{"takeStream"}
+		order = []string{"takeStream", "Mplus", "Bind", "Disj", "Conj"}
 		os.Args = append(os.Args[:1], os.Args[2:]...)
 	}
 	if len(os.Args) != 3 {
-		fail("usage: genmicro [-gomini|-stream] <repo> <outdir>")
+		fail("usage: genmicro [-gomini|-stream|-mini] <repo> <outdir>")
 	}
 	repo, outdir := os.Args[1], os.Args[2]
-	files := []string{"micro/walk.go", "micro/exts.go", "micro/unify.go", "micro/reify.go"}
+	files := []string{"micro/walk.go", "micro/exts.go", "micro/unify.go", "micro/reify.go", "micro/goal.go"}
 	if dialect == "gomini" {
 		files = []string{"gomini/unify.go"}
 	}
 	if dialect == "stream" {
-		files = []string{"micro/stream.go"}
+		files = []string{"micro/stream.go", "micro/disj.go", "micro/conj.go"}
+	}
+	if dialect == "mini" {
+		files = []string{"mini/disj.go", "mini/conj.go", "mini/conde.go"}
 	}
 	for _, p := range files {
 		f, err := parser.ParseFile(fset, filepath.Join(repo, p), nil, 0)
@@ -1111,11 +1437,30 @@ func main() {
 			if fd.Type.Results == nil {
 				fail("%s: no result", g.name)
 			}
-			for _, fl := range fd.Type.Results.List {
-				if len(fl.Names) != 0 {
-					fail("%s: named results", g.name)
+			g.body, g.sig = fd.Body, src(fd.Type)
+			// a goal constructor `func C(args) Goal { return func(s *State) *StreamOfStates { BODY } }` is translated as the function
+			// of (args, s) with body BODY
+			var lit *ast.FuncLit
+			if len(fd.Body.List) == 1 && (dialect == "micro" || dialect == "stream") {
+				if rs, ok := fd.Body.List[0].(*ast.ReturnStmt); ok && len(rs.Results) == 1 {
+					lit, _ = rs.Results[0].(*ast.FuncLit)
 				}
-				g.results = append(g.results, goType(fl.Type))
+			}
+			if lit != nil {
+				if src(fd.Type.Results.List[0].Type) != "Goal" || src(lit.Type) != "func(s *State) *StreamOfStates" {
+					fail("%s: curried function outside the subset: %s", g.name, src(lit.Type))
+				}
+				g.params = append(g.params, [2]string{"s", map[string]string{"micro": "mstate", "stream": "mstate?"}[dialect]})
+				g.results = []string{"stream"}
+				g.body = lit.Body
+				g.sig += " { return " + src(lit.Type) + " {...} }"
+			} else {
+				for _, fl := range fd.Type.Results.List {
+					if len(fl.Names) != 0 {
+						fail("%s: named results", g.name)
+					}
+					g.results = append(g.results, goType(fl.Type))
+				}
 			}
 			if _, dup := fns[g.name]; dup {
 				fail("%s declared twice", g.name)
@@ -1130,10 +1475,10 @@ func main() {
 	}
 	// call graph among the translated functions
 	for _, g := range fns {
-		ast.Inspect(g.decl.Body, func(n ast.Node) bool {
+		ast.Inspect(g.body, func(n ast.Node) bool {
 			switch n.(type) {
 			case *ast.FuncLit:
-				if dialect != "gomini" {
+				if dialect != "gomini" && dialect != "mini" && dialect != "stream" {
 					fail("%s: closures are outside the subset", g.name)
 				}
 			case *ast.GoStmt, *ast.DeferStmt:
@@ -1196,7 +1541,11 @@ func main() {
 	}
 
 	var sb strings.Builder
-	if dialect == "stream" {
+	if dialect == "mini" {
+		sb.WriteString("(* GENERATED by harness/cmd/genmicro -mini from mini/disj.go, mini/conj.go, mini/conde.go - do not edit.\n")
+		sb.WriteString("   Each combinator as a function from goal lists to the goal it returns (a term of Goal.v), statement by statement, in the\n   result monad of GoLite.v; the function literals it returns are read as GDisj / GConj (the bodies of micro.Disj / micro.Conj). *)\n")
+		sb.WriteString("From Coq Require Import List NArith ZArith Bool.\nFrom GMK Require Import Term Goal GoLite GoLiteM.\nImport ListNotations.\n\n")
+	} else if dialect == "stream" {
 		sb.WriteString("(* GENERATED by harness/cmd/genmicro -stream from micro/stream.go - do not edit.\n")
 		sb.WriteString("   takeStream, statement by statement, in the result monad of GoLite.v over the stream model of Stream.v (CarCdr = GoLiteS.carcdr). *)\n")
 		sb.WriteString("From Coq Require Import List NArith ZArith Bool.\nFrom GMK Require Import Term Unify Goal Stream GoLite GoLiteS.\nImport ListNotations.\n\n")
@@ -1205,9 +1554,9 @@ func main() {
 		sb.WriteString("   Each function is the Go function of the same name, statement by statement, in the result monad of GoLite.v over the\n   reflecttools value model (Reflect.v) with the primitives of GoLiteG.v. *)\n")
 		sb.WriteString("From Coq Require Import List NArith ZArith Bool.\nFrom GMK Require Import Term Reflect GCore GoLite GoLiteG.\nImport ListNotations.\n\n")
 	} else {
-		sb.WriteString("(* GENERATED by harness/cmd/genmicro from micro/walk.go, micro/exts.go, micro/unify.go, micro/reify.go - do not edit.\n")
+		sb.WriteString("(* GENERATED by harness/cmd/genmicro from micro/walk.go, micro/exts.go, micro/unify.go, micro/reify.go, micro/goal.go (EqualO) - do not edit.\n")
 		sb.WriteString("   Each function is the Go function of the same name, statement by statement, in the result monad of GoLite.v. *)\n")
-		sb.WriteString("From Coq Require Import List NArith ZArith Bool.\nFrom GMK Require Import Term Reify GoLite.\nImport ListNotations.\n\n")
+		sb.WriteString("From Coq Require Import List NArith ZArith Bool.\nFrom GMK Require Import Term Unify Stream Reify GoLite.\nImport ListNotations.\n\n")
 	}
 	fresh := 0
 	for _, n := range sorted {
@@ -1223,19 +1572,19 @@ func main() {
 			sig = "(ds : defs) (uf : term -> term -> subst -> nat) " + sig
 		}
 		rt := "R " + coqType(g.resType())
-		fmt.Fprintf(&sb, "(* %s *)\n", strings.ReplaceAll(strings.ReplaceAll(src(g.decl.Type), "(*", "( *"), "*)", "* )"))
+		fmt.Fprintf(&sb, "(* %s *)\n", strings.ReplaceAll(strings.ReplaceAll(g.sig, "(*", "( *"), "*)", "* )"))
 		switch {
 		case g.rec:
 			c.fuel = "f'"
-			body := c.stmts(g.decl.Body.List, "")
+			body := c.stmts(g.body.List, "")
 			fmt.Fprintf(&sb, "Fixpoint %s%s (f : nat) %s {struct f} : %s :=\nmatch f with\n| O => OOF_\n| S f' =>\n%s\nend.\n\n", prefix, n, sig, rt, body)
 		case g.fuelled:
 			c.fuel = "f"
-			body := c.stmts(g.decl.Body.List, "")
+			body := c.stmts(g.body.List, "")
 			fmt.Fprintf(&sb, "Definition %s%s (f : nat) %s : %s :=\n%s.\n\n", prefix, n, sig, rt, body)
 		default:
 			c.fuel = "NOFUEL"
-			body := c.stmts(g.decl.Body.List, "")
+			body := c.stmts(g.body.List, "")
 			fmt.Fprintf(&sb, "Definition %s%s %s : %s :=\n%s.\n\n", prefix, n, sig, rt, body)
 		}
 	}
@@ -1245,6 +1594,9 @@ func main() {
 	}
 	if dialect == "stream" {
 		out = filepath.Join(outdir, "StreamGen.v")
+	}
+	if dialect == "mini" {
+		out = filepath.Join(outdir, "MiniGen.v")
 	}
 	text := sb.String()
 	if old, err := os.ReadFile(out); err == nil && string(old) == text {
